@@ -43,6 +43,7 @@ package actions
 // time.Duration arithmetic below from overflowing. Callers that are not part of the proof of C04 do not have to establish it.
 //@   requires [C04] policy_domain: effmax(sub) <= 8640000000000000
 //@   ensures nominal: nominalDelay == trunc(nominal_backoff(sub, attempts))
+//@   ensures nominal_ns: nominalDelay == backoff_ns(effmin(sub), effmax(sub), attempts)
 //@   ensures jitter: 0 <= fuzzedDelay - nominalDelay && fuzzedDelay - nominalDelay < 1000000000
 //@   ensures small_delays_exact: nominal_backoff(sub, attempts) <= 500000000.0 ==> fuzzedDelay == nominalDelay
 //@   modifies nothing
@@ -129,7 +130,7 @@ package actions
 // C04/C03/C10: modify-ack-deadline. A positive delay only ever postpones the next attempt of the listed, still
 // open deliveries; zero or negative makes them immediately redeliverable and wakes their subscriptions on commit.
 //@ func (*DelayDeliveries).Execute(a, ctx, tx) (err)
-//@   property C04
+//@   property C04 C03
 //@   uses tables notifyspec
 //@   requires a != nil && tx != nil
 //@   ensures delay: err == nil ==> exists now clock :: forall d Id ::
@@ -537,10 +538,13 @@ package actions
 // returned then every such delivery is returned.
 //@ func (*GetSubscriptionMessages).queryAndLockDeliveriesOnce(a, ctx, tx, sub) (result, err)
 //@   property C02
-//@   uses tables
+//@   uses tables notifyspec
 // MaxMessages >= 1 is established by the only constructor (NewGetSubscriptionMessages panics otherwise).
 //@   requires a != nil && tx != nil && sub != nil && deliveries_wf() && a.params.MaxMessages >= 1
-//@   ensures sound: err == nil ==> exists n1 clock :: exists n2 clock :: n1 <= n2 && (forall k int :: {result[k]} 0 <= k && k < len(result) ==>
+// W3 (C10): the candidates are only ever looked up while a waiter for the subscription is registered, so a publish
+// that commits after the look-up finds someone to wake.
+//@   requires [C10] listening: exists c chan struct{} :: waiting(sub.ID, c)
+//@   ensures sound: [C02 C05] err == nil ==> exists n1 clock :: exists n2 clock :: n1 <= n2 && (forall k int :: {result[k]} 0 <= k && k < len(result) ==>
 //@             result[k] != nil && deliveries.exists(result[k].ID) && deliveries.subscription_id(result[k].ID) == sub.ID &&
 //@             deliveries.completed_at$null(result[k].ID) && deliveries.expires_at(result[k].ID) > n2 && deliveries.attempt_at(result[k].ID) <= n1 &&
 //@             (sub.OrderedDelivery ==> unblocked(result[k].ID, n2)))
@@ -555,14 +559,15 @@ package actions
 //@             result[k].Edges.Message.PublishedAt == messages.published_at(deliveries.message_id(result[k].ID)))
 //@   ensures bounded: err == nil ==> len(result) <= a.params.MaxMessages
 //@   ensures distinct: err == nil ==> (forall k1 int, k2 int :: 0 <= k1 && k1 < k2 && k2 < len(result) ==> result[k1].ID != result[k2].ID)
-//@   ensures complete: [C01] err == nil && len(result) < a.params.MaxMessages ==> exists n1 clock :: exists n2 clock :: (forall d Id ::
+//@   ensures complete: [C01 C05] err == nil && len(result) < a.params.MaxMessages ==> exists n1 clock :: exists n2 clock :: (forall d Id ::
 //@             deliveries.exists(d) && deliveries.subscription_id(d) == sub.ID && deliveries.completed_at$null(d) && deliveries.expires_at(d) > n2 && deliveries.attempt_at(d) <= n1 &&
 //@             (sub.OrderedDelivery ==> unblocked(d, n2)) ==> (exists k int :: 0 <= k && k < len(result) && result[k].ID == d))
 //@   ensures no_swallowed_failure: [C09] dbfailed() && !old(dbfailed()) ==> err != nil
 //@   modifies S:dbfailed
 
-// The pull action's client entry point (waits, retries, runs its own transactions): used by handlers through
-// this summary only; its body is not under contract yet (see DESIGN: C01/C04 pull path).
+// The pull action's client entry point (waits, retries, runs its own transactions): used by handlers through this
+// summary only. The same body is verified for the single-transaction entry point Execute (below); the
+// multi-transaction wrapper (DoCtxTxRetry around each step) is not.
 //@ func (*GetSubscriptionMessages).ExecuteClient(a, ctx, client) (err)
 //@   trusted
 //@   requires a != nil
@@ -599,7 +604,7 @@ package actions
 //@     invariant distinct: forall k1 int, k2 int :: {deliveryData[k1].DeliveryID, deliveryData[k2].DeliveryID} 0 <= k1 && k1 < k2 && k2 < len(deliveryData) ==> deliveryData[k1].DeliveryID != deliveryData[k2].DeliveryID
 //@     invariant done: forall k int :: {deliveryData[k].DeliveryID} 0 <= k && k <= idx ==> delivery_retired(deliveryData[k].DeliveryID)
 //@     invariant pending: forall k int :: {deliveryData[k].DeliveryID} idx < k && k < len(deliveryData) ==> delivery_unchanged(deliveryData[k].DeliveryID)
-//@     invariant others: forall d Id :: {deliveries.completed_at$null(d)} old(deliveries.exists(d)) ==> delivery_unchanged(d) || (exists k int :: 0 <= k && k <= idx && deliveryData[k].DeliveryID == d)
+//@     invariant others: forall d Id :: {deliveries.completed_at$null(d)} old(deliveries.exists(d)) ==> delivery_unchanged(d) || (exists k int :: {deliveryData[k].DeliveryID} 0 <= k && k <= idx && deliveryData[k].DeliveryID == d)
 //@     invariant created: forall d Id :: {deliveries.message_id(d)} !old(deliveries.exists(d)) && deliveries.exists(d) ==>
 //@                 deliveries.completed_at$null(d) && deliveries.attempts(d) == 0 && live_sub(deliveries.subscription_id(d)) && wake_on_commit(deliveries.subscription_id(d)) &&
 //@                 (exists k int :: 0 <= k && k <= idx && deliveries.message_id(d) == deliveryData[k].DeliveryMessageID && subscriptions.topic_id(deliveries.subscription_id(d)) == deliveryData[k].DeadLetterTopicID)
@@ -639,12 +644,22 @@ package actions
 //@     invariant subs_ok: forall k int :: {deliveries[k]} 0 <= k && k < len(deliveries) ==> subById[deliveries[k].SubscriptionID] != nil &&
 //@                 subById[deliveries[k].SubscriptionID].ID == deliveries[k].SubscriptionID &&
 //@                 (exists j int :: 0 <= j && j < len(subs) && subById[deliveries[k].SubscriptionID] == subs[j])
+//@     invariant distinct: forall k1 int, k2 int :: {deliveries[k1], deliveries[k2]} 0 <= k1 && k1 < k2 && k2 < len(deliveries) ==> deliveries[k1].ID != deliveries[k2].ID
+//@     invariant bridge: forall k int :: {deliveries[k]} 0 <= k && k < len(deliveries) ==> effmin(subById[deliveries[k].SubscriptionID]) == effmin_row(deliveries[k].SubscriptionID) &&
+//@                 effmax(subById[deliveries[k].SubscriptionID]) == effmax_row(deliveries[k].SubscriptionID) && deliveries[k].SubscriptionID == old(deliveries.subscription_id(cur(deliveries[k].ID))) &&
+//@                 deliveries[k].Attempts == old(deliveries.attempts(cur(deliveries[k].ID)))
 //@     invariant sel: forall k int :: {deliveries[k]} 0 <= k && k < len(deliveries) ==> deliveries[k] != nil && old(contains(a.params.IDs, cur(deliveries[k].ID))) && old(outstanding(cur(deliveries[k].ID), now))
 //@     invariant all: forall d Id :: {deliveries.completed_at$null(d)} old(contains(a.params.IDs, d)) && old(outstanding(d, now)) ==> (exists k int :: 0 <= k && k < len(deliveries) && deliveries[k].ID == d)
-//@     invariant done: forall k int :: {deliveries[k]} 0 <= k && k <= idx ==>
-//@                 ite(old(dl_exhausted(cur(deliveries[k].ID))), delivery_retired(deliveries[k].ID), rescheduled(deliveries[k].ID, now))
+//@     invariant done_dl: forall k int :: {deliveries[k]} 0 <= k && k <= idx && old(dl_exhausted(cur(deliveries[k].ID))) ==> delivery_retired(deliveries[k].ID)
+//@     invariant done_open: forall k int :: {deliveries[k]} 0 <= k && k <= idx && !old(dl_exhausted(cur(deliveries[k].ID))) ==> deliveries.exists(deliveries[k].ID) && deliveries.completed_at$null(deliveries[k].ID) == old(deliveries.completed_at$null(cur(deliveries[k].ID)))
+//@     invariant done_cols: forall k int :: {deliveries[k]} 0 <= k && k <= idx && !old(dl_exhausted(cur(deliveries[k].ID))) ==> deliveries.message_id(deliveries[k].ID) == old(deliveries.message_id(cur(deliveries[k].ID))) && deliveries.subscription_id(deliveries[k].ID) == old(deliveries.subscription_id(cur(deliveries[k].ID))) &&
+//@                 deliveries.published_at(deliveries[k].ID) == old(deliveries.published_at(cur(deliveries[k].ID))) && deliveries.attempts(deliveries[k].ID) == old(deliveries.attempts(cur(deliveries[k].ID))) && deliveries.expires_at(deliveries[k].ID) == old(deliveries.expires_at(cur(deliveries[k].ID))) &&
+//@                 deliveries.not_before_id$null(deliveries[k].ID) == old(deliveries.not_before_id$null(cur(deliveries[k].ID))) && deliveries.not_before_id(deliveries[k].ID) == old(deliveries.not_before_id(cur(deliveries[k].ID)))
+//@     invariant done_lease: forall k int :: {deliveries[k]} 0 <= k && k <= idx && !old(dl_exhausted(cur(deliveries[k].ID))) ==>
+//@                 deliveries.attempt_at(deliveries[k].ID) - now >= backoff_ns(effmin_row(old(deliveries.subscription_id(cur(deliveries[k].ID)))), effmax_row(old(deliveries.subscription_id(cur(deliveries[k].ID)))), old(deliveries.attempts(cur(deliveries[k].ID)))) &&
+//@                 deliveries.attempt_at(deliveries[k].ID) - now < backoff_ns(effmin_row(old(deliveries.subscription_id(cur(deliveries[k].ID)))), effmax_row(old(deliveries.subscription_id(cur(deliveries[k].ID)))), old(deliveries.attempts(cur(deliveries[k].ID)))) + 1000000000
 //@     invariant pending: forall k int :: {deliveries[k]} idx < k && k < len(deliveries) ==> delivery_unchanged(deliveries[k].ID)
-//@     invariant others: forall d Id :: {deliveries.completed_at$null(d)} old(deliveries.exists(d)) ==> delivery_unchanged(d) || (exists k int :: 0 <= k && k <= idx && deliveries[k].ID == d)
+//@     invariant others: forall d Id :: {deliveries.completed_at$null(d)} old(deliveries.exists(d)) ==> delivery_unchanged(d) || (exists k int :: {deliveries[k]} 0 <= k && k <= idx && deliveries[k].ID == d)
 //@     invariant !dbfailed() || old(dbfailed())
 
 // ---- C04 / C02 / C14 / C06: handing out the candidates of one pull. Every candidate is either skipped (byte budget),
@@ -681,8 +696,8 @@ package actions
 //@     invariant a != nil && tx != nil && sub != nil && results != nil && !allocated(results) && idx < len(deliveries) && 0 <= len(results.Deliveries) && len(results.Deliveries) <= idx + 1
 //@     invariant built: forall j int :: {results.Deliveries[j]} 0 <= j && j < len(results.Deliveries) ==> results.Deliveries[j] != nil && !allocated(results.Deliveries[j]) &&
 //@                 (exists k int :: 0 <= k && k <= idx && deliveries[k].ID == results.Deliveries[j].ID && results.Deliveries[j].NumAttempts == deliveries[k].Attempts + 1 &&
-//@                    results.Deliveries[j].NextAttemptAt + results.Deliveries[j].fuzzDelay - now >= trunc(nominal_backoff(sub, deliveries[k].Attempts + 1)) &&
-//@                    results.Deliveries[j].NextAttemptAt + results.Deliveries[j].fuzzDelay - now < trunc(nominal_backoff(sub, deliveries[k].Attempts + 1)) + 1000000000 &&
+//@                    results.Deliveries[j].NextAttemptAt + results.Deliveries[j].fuzzDelay - now >= backoff_ns(effmin(sub), effmax(sub), deliveries[k].Attempts + 1) &&
+//@                    results.Deliveries[j].NextAttemptAt + results.Deliveries[j].fuzzDelay - now < backoff_ns(effmin(sub), effmax(sub), deliveries[k].Attempts + 1) + 1000000000 &&
 //@                    results.Deliveries[j].MessageID == deliveries[k].Edges.Message.ID && results.Deliveries[j].Payload == deliveries[k].Edges.Message.Payload && results.Deliveries[j].Attributes == deliveries[k].Edges.Message.Attributes &&
 //@                    results.Deliveries[j].OrderKey == deliveries[k].Edges.Message.OrderKey && results.Deliveries[j].PublishedAt == deliveries[k].Edges.Message.PublishedAt)
 //@     invariant count: len(results.Deliveries) == 0 || len(results.Deliveries) < a.params.MaxMessages
@@ -697,8 +712,8 @@ package actions
 //@     invariant same_elems: (forall k int :: {sortedDeliveries[k]} 0 <= k && k < len(sortedDeliveries) ==> sortedDeliveries[k] != nil && contains(results.Deliveries, sortedDeliveries[k])) && (forall j int :: {results.Deliveries[j]} 0 <= j && j < len(results.Deliveries) ==> contains(sortedDeliveries, results.Deliveries[j]))
 //@     invariant sdistinct: forall k1 int, k2 int :: {sortedDeliveries[k1], sortedDeliveries[k2]} 0 <= k1 && k1 < k2 && k2 < len(sortedDeliveries) ==> sortedDeliveries[k1].ID != sortedDeliveries[k2].ID
 //@     invariant sfrom: forall k int :: {sortedDeliveries[k]} 0 <= k && k < len(sortedDeliveries) ==> (exists m int :: 0 <= m && m < len(deliveries) && deliveries[m].ID == sortedDeliveries[k].ID && sortedDeliveries[k].NumAttempts == deliveries[m].Attempts + 1 &&
-//@                 sortedDeliveries[k].NextAttemptAt + sortedDeliveries[k].fuzzDelay - now >= trunc(nominal_backoff(sub, deliveries[m].Attempts + 1)) &&
-//@                 sortedDeliveries[k].NextAttemptAt + sortedDeliveries[k].fuzzDelay - now < trunc(nominal_backoff(sub, deliveries[m].Attempts + 1)) + 1000000000)
+//@                 sortedDeliveries[k].NextAttemptAt + sortedDeliveries[k].fuzzDelay - now >= backoff_ns(effmin(sub), effmax(sub), deliveries[m].Attempts + 1) &&
+//@                 sortedDeliveries[k].NextAttemptAt + sortedDeliveries[k].fuzzDelay - now < backoff_ns(effmin(sub), effmax(sub), deliveries[m].Attempts + 1) + 1000000000)
 //@     invariant done_open: forall k int :: {sortedDeliveries[k]} 0 <= k && k <= idx ==> deliveries.exists(sortedDeliveries[k].ID) && deliveries.completed_at$null(sortedDeliveries[k].ID) && old(deliveries.completed_at$null(cur(sortedDeliveries[k].ID)))
 //@     invariant done_cols: forall k int :: {sortedDeliveries[k]} 0 <= k && k <= idx ==> deliveries.message_id(sortedDeliveries[k].ID) == old(deliveries.message_id(cur(sortedDeliveries[k].ID))) && deliveries.subscription_id(sortedDeliveries[k].ID) == old(deliveries.subscription_id(cur(sortedDeliveries[k].ID))) &&
 //@                 deliveries.published_at(sortedDeliveries[k].ID) == old(deliveries.published_at(cur(sortedDeliveries[k].ID))) && deliveries.expires_at(sortedDeliveries[k].ID) == old(deliveries.expires_at(cur(sortedDeliveries[k].ID))) &&
@@ -706,6 +721,74 @@ package actions
 //@     invariant done_attempts: forall k int :: {sortedDeliveries[k]} 0 <= k && k <= idx ==> deliveries.attempts(sortedDeliveries[k].ID) == old(deliveries.attempts(cur(sortedDeliveries[k].ID))) + 1
 //@     invariant done_lease: forall k int :: {sortedDeliveries[k]} 0 <= k && k <= idx ==> deliveries.attempt_at(sortedDeliveries[k].ID) == sortedDeliveries[k].NextAttemptAt + sortedDeliveries[k].fuzzDelay
 //@     invariant todo: forall k int :: {sortedDeliveries[k]} idx < k && k < len(sortedDeliveries) ==> delivery_unchanged(sortedDeliveries[k].ID)
-//@     invariant rows: forall d Id :: {deliveries.completed_at$null(d)} old(deliveries.exists(d)) ==> delivery_unchanged(d) || (exists k int :: 0 <= k && k <= idx && sortedDeliveries[k].ID == d) ||
+//@     invariant rows: forall d Id :: {deliveries.completed_at$null(d)} old(deliveries.exists(d)) ==> delivery_unchanged(d) || (exists k int :: {sortedDeliveries[k]} 0 <= k && k <= idx && sortedDeliveries[k].ID == d) ||
 //@                 (delivery_retired(d) && sub.MaxDeliveryAttempts != nil && sub.DeadLetterTopicID != nil && deref(sub.MaxDeliveryAttempts) > 0 && old(deliveries.attempts(d)) >= deref(sub.MaxDeliveryAttempts))
 //@     invariant !dbfailed() || old(dbfailed())
+
+// W3 (C10): registering a waiter really registers it - a fresh, open one-shot channel, in the registry of that
+// subscription, without disturbing any other registration; cancelling removes exactly that registration.
+//@ func PublishAwaiter(subID) (c)
+//@   property C10
+//@   uses notifyspec
+//@   requires registry_wf()
+//@   ensures wf_kept: registry_wf()
+//@   ensures registered: c != nil && waiting(subID, c) && !closed(c) && !allocated(c)
+//@   ensures others_kept: forall s uuid.UUID, x chan struct{} :: old(waiting(s, x)) ==> waiting(s, x)
+//@   ensures nothing_else_added: forall s uuid.UUID, x chan struct{} :: waiting(s, x) ==> old(waiting(s, x)) || (s == subID && x == c)
+//@   modifies MH:*, MV:*, S:closed
+
+//@ func CancelPublishAwaiter(subID, c)
+//@   property C10
+//@   uses notifyspec
+//@   requires registry_wf()
+//@   ensures wf_kept: registry_wf()
+//@   ensures cancelled: c != nil ==> !waiting(subID, c)
+//@   ensures others_kept: forall s uuid.UUID, x chan struct{} :: old(waiting(s, x)) && !(s == subID && x == c) ==> waiting(s, x)
+//@   ensures nothing_added: forall s uuid.UUID, x chan struct{} :: waiting(s, x) ==> old(waiting(s, x))
+//@   modifies MH:*, MV:*
+
+// the pull action re-reads its subscription: the live row with the bound id (or the given name); the id is bound
+//@ func (*GetSubscriptionMessages).verifySub(a, ctx, tx) (sub, err)
+//@   property C02 C14
+//@   uses tables backoff
+//@   requires a != nil && tx != nil
+//@   ensures found: err == nil ==> sub != nil && !allocated(sub) && live_sub(sub.ID) && a.params.ID != nil && deref(a.params.ID) == sub.ID && sub.TTL == subscriptions.ttl(sub.ID) && effmax(sub) == effmax_row(sub.ID) && effmin(sub) == effmin_row(sub.ID) &&
+//@             (old(a.params.ID) != nil ==> sub.ID == old(deref(a.params.ID))) && (a.params.Name != "" ==> subscriptions.name(sub.ID) == a.params.Name)
+//@   ensures unbound_on_error: err != nil ==> a.params.ID == old(a.params.ID)
+//@   ensures no_swallowed_failure: [C09] dbfailed() && !old(dbfailed()) ==> err != nil
+//@   modifies F:actions.GetSubscriptionMessages:actionBase.params.ID, S:dbfailed, B:uuid.UUID:
+//@   allocates F:ent.*, B:*, E:*, MH:string:string, MV:string:string:*
+
+// ---- the pull action inside a caller's transaction: composition of verifySub, the candidate query and applyResults
+// (their preconditions are proof obligations here), W3 of C10 (register before every look-up), and the expiry
+// refresh of C14 before anything else.
+//@ func (*GetSubscriptionMessages).Execute(a, ctx, tx) (err)
+//@   property C10 C02 C04 C14
+//@   uses tables notifyspec backoff
+//@   requires a != nil && tx != nil && tables_wf() && registry_wf() && a.params.MaxMessages >= 1 && (a.params.ID != nil || a.params.Name != "")
+//@   requires [C04] policy_domain: forall s Id :: {subscriptions.exists(s)} subscriptions.exists(s) ==> effmax_row(s) <= 8640000000000000
+//@   ensures no_swallowed_failure: [C09] dbfailed() && !old(dbfailed()) ==> err != nil
+//@   modifies *
+//@ func (*GetSubscriptionMessages).execute(a, ctx, timerTx, runTx) (err)
+//@   inline
+//@   loop 1
+//@     invariant a != nil
+//@     invariant pid: a.params.ID != nil
+//@     invariant rwf: registry_wf()
+//@     invariant twf: tables_wf()
+//@     invariant mm: a.params.MaxMessages >= 1
+//@     invariant !dbfailed() || old(dbfailed())
+
+// looks up when the next candidate becomes due: reads only
+//@ func (*GetSubscriptionMessages).nextAttempt(a, ctx, tx, sub) (next, err)
+//@   property C09
+//@   uses tables
+//@   requires a != nil && tx != nil && sub != nil
+//@   ensures no_swallowed_failure: [C09] dbfailed() && !old(dbfailed()) ==> err != nil
+//@   modifies S:dbfailed
+//@   allocates F:ent.*, B:*, E:*, MH:string:string, MV:string:string:*
+
+// the success callback of an action timer only updates metrics
+//@ func actionTimer.onSuccess()
+//@   abstract
+//@   modifies nothing
